@@ -1603,8 +1603,7 @@ forward_query(int bind_fd, struct query *q)
 	char buf[64*1024];
 	int len;
 	struct fw_query fwq;
-	struct sockaddr_in *myaddr;
-	in_addr_t newaddr;
+	struct sockaddr_in localdns;
 
 	len = dns_encode(buf, sizeof(buf), q, QR_QUERY, q->name, strlen(q->name));
 	if (len < 1) {
@@ -1618,16 +1617,18 @@ forward_query(int bind_fd, struct query *q)
 	fwq.id = q->id;
 	fw_query_put(&fwq);
 
-	newaddr = inet_addr("127.0.0.1");
-	myaddr = (struct sockaddr_in *) &(q->from);
-	memcpy(&(myaddr->sin_addr), &newaddr, sizeof(in_addr_t));
-	myaddr->sin_port = htons(bind_port);
+	/* The forwarding socket is IPv4: always address the local DNS server
+	 * as 127.0.0.1, also when the query arrived over IPv6 */
+	memset(&localdns, 0, sizeof(localdns));
+	localdns.sin_family = AF_INET;
+	localdns.sin_addr.s_addr = inet_addr("127.0.0.1");
+	localdns.sin_port = htons(bind_port);
 
 	if (debug >= 2) {
 		fprintf(stderr, "TX: NS reply \n");
 	}
 
-	if (sendto(bind_fd, buf, len, 0, (struct sockaddr*)&q->from, q->fromlen) <= 0) {
+	if (sendto(bind_fd, buf, len, 0, (struct sockaddr*)&localdns, sizeof(localdns)) <= 0) {
 		warn("forward query error");
 	}
 }
